@@ -63,10 +63,18 @@ Inductive ccase :=
 (* the common case written short: both decoders returned [o] *)
 | CMsgS (b : bytes) (o : dobs)
 (* message b outside the wire grammar of Codec.Wire (group wire types): hand-written decoder only *)
-| CCus (b : bytes) (custom : dobs).
+| CCus (b : bytes) (custom : dobs)
+(* DBI.Map: NewDBIFromData(data).Map(transform, f).Marshal() with f appending the byte '!' to every value *)
+| CMap (data transform : bytes) (out : obs).
 
 Definition model_decode (b : bytes) : dobs := dobs_of_res (custom_decode b).
 Definition model_spec (b : bytes) : dobs := dobs_of_res (spec_decode b).
+
+Definition model_map (data tr : bytes) : res bytes :=
+  do o <- new_dbi_from_data data;
+  do w <- dbi_map o tr (fun e => Ok (mkKV (k_key e) (k_val e ++ [33]) (k_ts e) (k_flags e)));
+  do (b, _) <- dbi_marshal w;
+  Ok b.
 
 Definition ccheck (c : ccase) : bool :=
   match c with
@@ -81,6 +89,7 @@ Definition ccheck (c : ccase) : bool :=
   | CMsg b cu rf => dobs_eqb (model_decode b) cu && dobs_eqb (model_spec b) rf
   | CMsgS b o => dobs_eqb (model_decode b) o && dobs_eqb (model_spec b) o
   | CCus b cu => dobs_eqb (model_decode b) cu
+  | CMap data tr out => obs_eqb (obs_of_res (model_map data tr)) out
   end.
 
 (* ---- coverage ----
@@ -138,6 +147,7 @@ Definition cids (c : ccase) : list N :=
   | CMsg b cu rf => outcome_id 6020 cu :: outcome_id 6030 rf :: msg_ids b
   | CMsgS b o => outcome_id 6020 o :: outcome_id 6030 o :: msg_ids b
   | CCus b cu => [outcome_id 6040 cu]
+  | CMap _ _ out => [match out with OBytes _ => 6050 | _ => 6051 end]
   end.
 
 Definition cbranches_all : list N :=
@@ -155,8 +165,19 @@ Definition cbranches_all : list N :=
   (* varint sizes met by the encoder: 1, 2, 3, 4, 5 and 10 bytes *)
    5101; 5102; 5103; 5104; 5105; 5110;
   (* outcomes: encoder wrote bytes / panicked (scratch buffer); decoders ok / error *)
-   6000; 6010; 6011; 6020; 6021; 6030; 6040].
+   6000; 6010; 6011; 6020; 6021; 6030; 6041; 6050].
 
 Definition mismatches (l : list ccase) : list N := mism ccheck l.
 Definition coverage (l : list ccase) : list N :=
   fold_left (fun acc c => fold_left (fun a x => ins x a) (cids c) acc) l [].
+
+(* what the model says for one case (for the replay file of a disagreement) *)
+Definition cexplain (c : ccase) : obs * dobs * dobs :=
+  match c with
+  | CEnc s enc _ =>
+      (obs_of_res (custom_encode s), match enc with OBytes b => model_decode b | _ => DErr end, DErr)
+  | CEncS s b => (obs_of_res (custom_encode s), model_decode b, model_spec b)
+  | CMsg b _ _ | CMsgS b _ => (OBytes [], model_decode b, model_spec b)
+  | CCus b _ => (OBytes [], model_decode b, DErr)
+  | CMap data tr _ => (obs_of_res (model_map data tr), DErr, DErr)
+  end.
